@@ -2,7 +2,6 @@ package main
 
 import (
 	"bytes"
-	"context"
 	"encoding/json"
 	"fmt"
 	"math/rand"
@@ -98,7 +97,7 @@ func c19Run(in *c19Input) Res {
 		}
 		spilled := countFiles(tmp) - before
 		errCh := make(chan error, 4)
-		ctx, cancel := context.WithTimeout(context.Background(), 60*time.Second)
+		ctx, cancel := ctxHangAfter(60*time.Second)
 		defer cancel()
 		blocks := []c19Block{}
 		for b := range s1.SortedBlocks(ctx, removed, errCh) {
